@@ -430,6 +430,50 @@ def _iter(g, scale):
         g.emit("adv gu%d %d" % (j, (ks[-1] - 1) * 65536 + 7))
         g.emit("drain gu%d 20" % j)
         g.count("iterbm:separated-full-chunks")
+    # AdvanceIfNeeded into / out of ABSENT chunks: the target's chunk is not stored and the chunk the cursor lands in holds values whose
+    # low 16 bits are smaller / larger than the target's; the unset iterator advanced while it stands in an absent chunk, towards a
+    # stored chunk right after the gap / further up; every kind of landing chunk
+    for j, rep in enumerate(["0:A:5,300,40000;2:A:3,10,12,500,65535;5:R:7+3,100+50;9:B:32768:5555555555555555*1024",
+                             "1:R:0+9,20+5;4:B:32768:aaaaaaaaaaaaaaaa*1024;5:A:1,2,3;70:A:0,65535",
+                             "3:A:100;6:A:100;7:A:100;20:R:50+100"]):
+        x = "aa%d" % j
+        g.emit("mkrepr %s cow=0;%s" % (x, rep))
+        ks = [int(t.split(":")[0]) for t in rep.split(";")]
+        gaps = sorted(set(k + 1 for k in ks if k + 1 not in ks) | set(k - 1 for k in ks if k > 0 and k - 1 not in ks))
+        n = 0
+        for consumed in (0, 1, 3):
+            for gk in gaps:
+                for low in (0, 11, 301, 65535):
+                    for kind in ("it", "rit", "mit"):
+                        i = "ai%d_%d" % (j, n)
+                        n += 1
+                        g.emit("%s %s %s" % (kind, i, x))
+                        for _ in range(consumed):
+                            g.emit("next? %s" % i) if kind != "mit" else g.emit("many %s 1" % i)
+                        if kind == "mit":
+                            g.emit("many %s 3" % i)
+                            continue
+                        g.emit("adv %s %d" % (i, gk * CH + low))
+                        g.emit("peek? %s" % i)
+                        g.emit("next? %s" % i)
+                        g.emit("next? %s" % i)
+                        g.emit("adv %s %d" % (i, gk * CH + low))      # never moves backwards
+                        g.emit("next? %s" % i)
+        # unset iterator: start inside an absent chunk (or a stored one), advance to a higher key
+        for start_k in gaps[:4] + ks[:2]:
+            for tgt_k in sorted(set(ks + gaps)):
+                if tgt_k <= start_k:
+                    continue
+                for low in (0, 4, 400):
+                    u = "au%d_%d" % (j, n)
+                    n += 1
+                    g.emit("uit %s %s %d %d" % (u, x, start_k * CH + 9, min(U32, (max(ks) + 2) * CH)))
+                    g.emit("next? %s" % u)
+                    g.emit("adv %s %d" % (u, tgt_k * CH + low))
+                    for _ in range(5):
+                        g.emit("next? %s" % u)
+                    g.emit("peek? %s" % u)
+        g.count("iterbm:advance-across-absent-chunks")
     # the full universe: 65536 full chunks; Ranges must merge them all, the unset iterators must find nothing
     if r.random() < 0.5:
         g.count("iterbm:universe")
